@@ -85,6 +85,20 @@ def require_fresh_target(ctx, rule, s, cname, key):
                     'entries written by earlier calls stay in the target returned', key=key)
 
 
+def _named_fee(e):
+    """a fee-model call resolved only by its method name (receiver reached through an untyped parameter): name its positional arguments after the
+    FeeModel.calc_total_cost(asset, quantity, consideration, broker) contract"""
+    if e.callee != ['meth:calc_total_cost'] or not all(isinstance(k, int) for k in e.args):
+        return e
+    from ..symex import Ev
+    d = dict(e.d)
+    names = ('asset', 'quantity', 'consideration', 'broker')
+    d['args'] = {names[i]: v for i, v in e.args.items() if i < len(names)}
+    for k, v in (e.d.get('kwargs') or {}).items():
+        d['args'][k] = v
+    return Ev('call', **d)
+
+
 def _rename_ev(e, ren):
     from ..symex import Ev
     d = {}
@@ -109,7 +123,7 @@ def sizing_paths(ctx, cname):
         loops = [e for e in p.events if e.kind == 'loop' and not e.d.get('partial')]
         # the sizing loop is the one that consults the fee model
         has = lambda l, test: any(e.kind == 'call' and any(test(c) for c in e.callee) for b in l.paths for e in b.flat_events())
-        is_fee = lambda c: c.endswith('.calc_total_cost')
+        is_fee = lambda c: c.endswith('.calc_total_cost') or c == 'meth:calc_total_cost'
         is_price = lambda c: c.startswith('BacktestDataHandler.get_asset_latest_')
         all_loops = loops
         loops = [l for l in all_loops if has(l, is_fee)]
@@ -136,7 +150,7 @@ def sizing_paths(ctx, cname):
         bodies = []
         container = None
         for b in lp.paths:
-            fee = [e for e in b.flat_events() if e.kind == 'call' and any(c.endswith('.calc_total_cost') for c in e.callee)]
+            fee = [_named_fee(e) for e in b.flat_events() if e.kind == 'call' and any(is_fee(c) for c in e.callee)]
             if carried_fee is not None:
                 fee = carried_fee + fee
             price = [e for e in b.flat_events() if e.kind == 'call' and any(c.startswith('BacktestDataHandler.get_asset_latest_') for c in e.callee)]
